@@ -1962,9 +1962,23 @@ class UserSpaceImpl(*_user_space_impl_base):
         self.own_refs[name].on_delete()
         self.own_refs.del_item(name)
 
+    def clear_refs_attr_referrers(self, recursive=False):
+        """Clear the values that read the refs of self by attribute"""
+        for ref in self.refs.values():
+            if isinstance(ref, ReferenceImpl):
+                self.model.clear_attr_referrers(ref)
+        if recursive:
+            for space in self.named_spaces.values():
+                space.clear_refs_attr_referrers(recursive=recursive)
+
+    def on_delete(self):
+        self.clear_refs_attr_referrers()
+        super().on_delete()
+
     def on_rename(self, name):
         self.model.clear_obj(self)
         self.clear_all_cells(clear_input=True, recursive=True, del_items=True)
+        self.clear_refs_attr_referrers(recursive=True)
         old_name = self.name
         self.name = name
         self.parent.named_spaces.rename_item(old_name, name)
